@@ -16,14 +16,14 @@ CHECKS = {
     "C02": dict(
         level="exploration",
         technique="exhaustive enumeration (unranking) of all ASTs up to a node bound x parenthesisation and spacing variants, parsed by the real tree builder and compared with the generating AST",
-        text="All ASTs with up to 3 (quick) / 4 (thorough) operator nodes over the full operator alphabet and up to 4 / 6 over one representative per precedence class are rendered with minimal, full and redundant parentheses and two spacings; every flat infix sequence of up to 5 / 6 of the 14 binary operators is checked against a precedence-climbing reference; chains, ladders and nestings of up to 129 / 400 operators; the parsed tree must equal the AST. Covers every ordered pair and triple of operators, which is where precedence/associativity slips live; deeper nestings rely on the class argument.",
+        text="All ASTs with up to 3 (quick) / 4 (thorough) operator nodes over the full operator alphabet and up to 4 / 6 over one representative per precedence class are rendered with minimal, full and redundant parentheses and two spacings; every flat infix sequence of up to 5 / 6 of the 14 binary operators is checked against a precedence-climbing reference; chains, ladders and nestings of up to 129 / 400 operators; the parsed tree must equal the AST. Covers every ordered pair and triple of operators, which is where precedence/associativity slips live; deeper nestings rely on the class argument. The minimal rendering is also checked with each of the 25 white-space characters of char::is_whitespace as the separator.",
         note="Trusted: the README precedence table as encoded in the minimal-parentheses renderer (mc/src/refmodel/ast.rs); exclusions exactly as the property's quantifier states.",
         design_ref="DESIGN.md section 4, C02",
     ),
     "C03": dict(
         level="exploration",
         technique="exhaustive enumeration of the complete operator x operand-pool^2 matrix on the real evaluator against an i128/f64 reference table, in two build profiles",
-        text="Every operator is run on every ordered pair of a 78-value edge pool (330 values in the thorough tier) (all six value types; i64 extremes and neighbours, 2^53/2^63 boundaries, signed zeros, subnormals, infinities, NaN, non-ASCII strings, nested/empty tuples) through three routes (variables, literals, op-assign) with overflow checks on and off and compared with an independent reference. Complete for the pool, so any per-operator or per-type-pair slip is found; values outside the pool are not covered.",
+        text="Every operator is run on every ordered pair of a 78-value edge pool (330 values in the thorough tier) (all six value types; i64 extremes and neighbours, 2^53/2^63 boundaries, signed zeros, subnormals, infinities, NaN, non-ASCII strings, nested/empty tuples) through three routes (variables, literals, op-assign) with overflow checks on and off and compared with an independent reference. Complete for the pool, so any per-operator or per-type-pair slip is found; values outside the pool are not covered. The pool includes strings that spell a value of another type (\"2\", \"1.5\", \" 4 \", \"inf\", \"NaN\", \"true\", \"()\"): still strings.",
         note="Trusted: the reference table mc/src/refmodel/ops.rs; Rust's f64 arithmetic and powf (same libm on both sides). Accepted both ways: MIN % -1, int/float ordering beyond 2^53, ==/!= on NaN and signed zero.",
         design_ref="DESIGN.md section 4, C03",
     ),
@@ -44,7 +44,7 @@ CHECKS = {
     "C06": dict(
         level="exploration",
         technique="exhaustive enumeration of strings over small hostile alphabets (quoted texts, raw sources, numeric-alphabet strings, words) and of integer/double pools x renderings x embeddings, against an independent lexer/classifier",
-        text="All texts up to 4/6 characters over a 16-character alphabet quoted and embedded, all raw quote-led sources up to 6/9, all integers below 2^14/2^17 in five spellings plus power boundaries, all strings up to 6/8 characters over the numeric alphabet `0 1 5 9 . e E + - x`, ~1500-4500 doubles in up to 13 renderings (incl. 40-digit expansions and the upper-case exponent marker) and 12 embeddings, all words up to 3/5 over 22 characters, plus literals of n characters (n up to 129/400). Token assembly is character-local, so short exhaustive alphabets reach every branch of it.",
+        text="All texts up to 4/6 characters over a 16-character alphabet quoted and embedded, all raw quote-led sources up to 6/9, all integers below 2^14/2^17 in five spellings plus power boundaries, all strings up to 6/8 characters over the numeric alphabet `0 1 5 9 . e E + - x`, ~1500-4500 doubles in up to 13 renderings (incl. 40-digit expansions and the upper-case exponent marker) and 12 embeddings, all words up to 3/5 over 22 characters, plus literals of n characters (n up to 129/400). Token assembly is character-local, so short exhaustive alphabets reach every branch of it. `0x` words around the signed 64-bit range: values below 2^63 with 0..=24 leading zeros are that integer, values of 2^63 and more are identifiers.",
         note="Trusted: mc/src/refmodel/lexer.rs; Rust's str::parse::<f64> as the correctly rounded conversion. Known finding F10 (inf/nan words) is reported as KNOWN-FINDING.",
         design_ref="DESIGN.md section 4, C06",
     ),
@@ -65,7 +65,7 @@ CHECKS = {
     "C09": dict(
         level="model_checking",
         technique="explicit enumeration of all configuration histories (switch / clone / clear / define) up to a depth from an empty context x 69 names x 36 call forms, against a reference resolution model",
-        text="For every builtin name and 17 non-builtin names (incl. near-builtin names differing in letter case, namespace or one character), every history of up to 4 (quick) / 5 (thorough) operations over disable, enable, clone, clone_from, clear_functions, clear_variables, define function, define failing function, bind variable, plus the two fixed-policy contexts; 36 call forms (incl. `n\"ab\"` without a gap) evaluated in each configuration through Node::eval_with_context and through Node::eval_with_context_mut on a clone, with the user function recording its argument. The configuration matrix is finite and is enumerated completely (guarded: all 8 switch x function x variable combinations reached for every name).",
+        text="For every builtin name and 17 non-builtin names (incl. near-builtin names differing in letter case, namespace or one character), every history of up to 4 (quick) / 5 (thorough) operations over disable, enable, clone, clone_from, clear_functions, clear_variables, define function, define failing function, bind variable, plus the two fixed-policy contexts; 36 call forms (incl. `n\"ab\"` without a gap) evaluated in each configuration through Node::eval_with_context and through Node::eval_with_context_mut on a clone, with the user function recording its argument. The configuration matrix is finite and is enumerated completely (guarded: all 8 switch x function x variable combinations reached for every name). 24 further names of unusual lexical classes (digits and underscores only, leading digit, non-ASCII symbols, primes, combining marks, invisible non-space characters, ASCII punctuation that is no operator).",
         note="Trusted: reference resolution order (context function, then builtin if enabled, else unknown) and the C10 builtin table for builtin results.",
         design_ref="DESIGN.md section 4, C09",
     ),
@@ -79,14 +79,14 @@ CHECKS = {
     "C11": dict(
         level="model_checking",
         technique="exhaustive program enumeration x contexts; shared-context, mutable-on-clone and no-storage evaluations of each program compared with each other and with a reference interpreter in immutable / mutable / no-storage mode",
-        text="All programs up to 2 (quick) / 3 (thorough) operator nodes of the C08 alphabet in 4 contexts: eval_with_context (tree and string), eval_with_context_mut on a clone, on a context with the default set_value, and on the two empty contexts; direct differential for assignment-free programs (untyped and all 7 typed views), a context with variables named like the program's own source text, projection to ContextNotMutable otherwise, context observation before and after.",
+        text="All programs up to 2 (quick) / 3 (thorough) operator nodes of the C08 alphabet in 4 contexts: eval_with_context (tree and string), eval_with_context_mut on a clone, on a context with the default set_value, and on the two empty contexts; direct differential for assignment-free programs (untyped and all 7 typed views), a context with variables named like the program's own source text, projection to ContextNotMutable otherwise, context observation before and after. Plus 8 context configurations (builtin switch on/off x a user function shadowing a builtin x a variable bound or not) x 26 assignment-free sources calling builtins: the shared form on the original equals the mutable form on a context constructed the same way, on a clone and on a clone of a clone, and switch and variables are unchanged everywhere; in the enumeration the mutable run is repeated on a second context constructed the same way (the crate's Clone does not define the expectation).",
         note="Trusted: the reference interpreter; an immutable op-assign whose read or operator would fail may report either error.",
         design_ref="DESIGN.md section 4, C11",
     ),
     "C12": dict(
         level="model_checking",
         technique="exhaustive enumeration of token sequences x 13 contexts x all 48 entry points + build_operator_tree; each typed result compared with the projection of the untyped one, tree level with string level, context-free with fresh context, repeated runs",
-        text="Every token sequence up to 4 (quick) / 5 (thorough) tokens over an alphabet reaching all six result types and every error stage, in 13 contexts (incl. one holding variables named like the source text itself), through all 24 string-level entry points (twice), all 24 Node methods and build_operator_tree; sequences up to 4 tokens also written without spaces where the reference lexer reads the same tokens. A copy-paste slip in any wrapper shows on the first input whose untyped result distinguishes it; all value types and errors occur (guarded).",
+        text="Every token sequence up to 4 (quick) / 5 (thorough) tokens over an alphabet reaching all six result types and every error stage, in 13 contexts (incl. one holding variables named like the source text itself), through all 24 string-level entry points (twice), all 24 Node methods and build_operator_tree; sequences up to 4 tokens also written without spaces where the reference lexer reads the same tokens. A copy-paste slip in any wrapper shows on the first input whose untyped result distinguishes it; all value types and errors occur (guarded). Expected-type errors are written as struct literals (the crate's constructor helpers do not define the expectation); results of every size 0..=300 / 0..=1100 (strings, tuples, nested) go through every entry point.",
         note="Trusted: the projection rules written from the property statement.",
         design_ref="DESIGN.md section 4, C12",
     ),
@@ -100,7 +100,7 @@ CHECKS = {
     "C14": dict(
         level="exploration",
         technique="exhaustive enumeration of ASTs and sequence shapes with identifiers in every position; 5+5 iterators against the AST's occurrence list; every name swap through the mutable iterators and the context",
-        text="All ASTs up to 3 (quick) / 4 (thorough) operator nodes plus sequence-shaped ASTs (n-ary nodes, absent elements, `()`, nesting): iterator output equals the source-order occurrence list by class, mutable variants visit the same, unknown-identifier errors name listed identifiers, and every swap of two variable or function names (or with a fresh name) commutes with evaluation.",
+        text="All ASTs up to 3 (quick) / 4 (thorough) operator nodes plus sequence-shaped ASTs (n-ary nodes, absent elements, `()`, nesting): iterator output equals the source-order occurrence list by class, mutable variants visit the same, unknown-identifier errors name listed identifiers, and every swap of two variable or function names (or with a fresh name) commutes with evaluation. ASTs with <= 2 operators are also read from layout variants (each white-space character, an inline comment, a line comment as the separator): same identifier lists.",
         note="Trusted: occurrence list from the generating AST; ASTs whose tree differs are skipped here (guarded to be zero) and belong to C02/C05.",
         design_ref="DESIGN.md section 4, C14",
     ),
